@@ -30,56 +30,64 @@ structure Wave where
   crash : Bool := false      -- a wave-RAM index was out of range (Go would have panicked)
 deriving DecidableEq, Repr
 
+/-- `(2048 - f) * 2` in uint16 -/
+def wavePeriodOf (f : Nat) : Nat := (sub16 2048 f * 2) % 65536
+
+/-- the four-byte copy of `corruptWaveRAM` from block `b` (4, 8 or 12) -/
+def ramCopy4 (r : WaveRam) (b : Nat) : WaveRam :=
+  ramSet (ramSet (ramSet (ramSet r 0 (ramGet r b)) 1 (ramGet r (b + 1))) 2 (ramGet r (b + 2))) 3 (ramGet r (b + 3))
+
+/-- `corruptWaveRAM` on the RAM, `pos` = wave position -/
+def corruptRam (r : WaveRam) (pos : Nat) : WaveRam :=
+  if (inc8 pos) % 32 / 2 < 4 then ramSet r 0 (ramGet r ((inc8 pos) % 32 / 2))
+  else if (inc8 pos) % 32 / 2 < 8 then ramCopy4 r 4
+  else if (inc8 pos) % 32 / 2 < 12 then ramCopy4 r 8
+  else ramCopy4 r 12
+
 namespace Wave
 
-/-- `(2048 - w.frequency) * 2` in uint16 -/
-def period (w : Wave) : Nat := (sub16 2048 w.frequency * 2) % 65536
+def period (w : Wave) : Nat := wavePeriodOf w.frequency
 
-/-- `corruptWaveRAM` -/
-def corruptWaveRAM (w : Wave) : Wave :=
-  let addr := (inc8 w.position) % 32 / 2
-  let r := w.waveram
-  if addr < 4 then
-    { w with waveram := ramSet r 0 (ramGet r addr) }
-  else if addr < 8 then
-    { w with waveram := ramSet (ramSet (ramSet (ramSet r 0 (ramGet r 4)) 1 (ramGet r 5)) 2 (ramGet r 6)) 3 (ramGet r 7) }
-  else if addr < 12 then
-    { w with waveram := ramSet (ramSet (ramSet (ramSet r 0 (ramGet r 8)) 1 (ramGet r 9)) 2 (ramGet r 10)) 3 (ramGet r 11) }
-  else
-    { w with waveram := ramSet (ramSet (ramSet (ramSet r 0 (ramGet r 12)) 1 (ramGet r 13)) 2 (ramGet r 14)) 3 (ramGet r 15) }
+/-- the first `if` of `wave.trigger`: corruption when re-triggered at the moment of a fetch, else
+    the `triggered` flag -/
+def trigHead (w : Wave) : Wave :=
+  if w.enabled then
+    (if w.timer = 0 then { w with waveram := corruptRam w.waveram w.position } else w)
+  else { w with triggered := true }
+
+/-- the rest of `wave.trigger` -/
+def trigBody (w : Wave) : Wave :=
+  { w with enabled := w.dacEnabled,
+           length := if w.length = 0 then 256 else w.length,
+           timer := w.period,
+           outputShift := if w.outputLevel = 0 then 4 else dec8 w.outputLevel,
+           position := 0 }
 
 /-- `wave.trigger` -/
-def trigger (w : Wave) : Wave :=
-  let w := if w.enabled then (if w.timer = 0 then w.corruptWaveRAM else w) else { w with triggered := true }
-  let w := { w with enabled := true }
-  let w := if w.length = 0 then { w with length := 256 } else w
-  let w := { w with timer := w.period,
-                    outputShift := if w.outputLevel = 0 then 4 else dec8 w.outputLevel,
-                    position := 0 }
-  if !w.dacEnabled then { w with enabled := false } else w
+def trigger (w : Wave) : Wave := w.trigHead.trigBody
 
-/-- the `if w.timer == 0 { … }` block of `tickTimer` -/
-def advance (w : Wave) : Wave :=
-  let pos := if inc8 w.position ≥ 32 then 0 else inc8 w.position
-  let la := pos / 2
-  let byte := ramGet w.waveram la
-  { w with timer := w.period, position := pos, lastAccessed := la,
-           sampleBuffer := if pos % 2 = 0 then byte / 16 else byte % 16,
-           sampleTimer := 0,
-           crash := w.crash || decide (16 ≤ la) }
+/-- next wave position -/
+def nextPos (p : Nat) : Nat := if inc8 p ≥ 32 then 0 else inc8 p
+
+/-- the nibble fetched for position `pos` -/
+def fetch (r : WaveRam) (pos : Nat) : Nat :=
+  if pos % 2 = 0 then ramGet r (pos / 2) / 16 else ramGet r (pos / 2) % 16
 
 /-- `wave.tickTimer` -/
 def tickTimer (w : Wave) : Wave :=
-  if !w.enabled then w else
-  let w := if w.timer = 0 then w.advance else w
-  { w with timer := dec16 w.timer, sampleTimer := inc8 w.sampleTimer }
+  if !w.enabled then w
+  else if w.timer = 0 then
+    { w with timer := dec16 w.period, position := nextPos w.position, lastAccessed := nextPos w.position / 2,
+             sampleBuffer := fetch w.waveram (nextPos w.position),
+             sampleTimer := 1,
+             crash := w.crash || decide (16 ≤ nextPos w.position / 2) }
+  else { w with timer := dec16 w.timer, sampleTimer := inc8 w.sampleTimer }
 
 /-- `wave.tickLength` (uint16 length) -/
 def tickLength (w : Wave) : Wave :=
-  if !w.lengthEnable then w else
-  if w.length > 0 then
-    let w := { w with length := dec16 w.length }
-    if w.length = 0 then { w with enabled := false } else w
+  if !w.lengthEnable then w
+  else if w.length > 0 then
+    { w with length := dec16 w.length, enabled := w.enabled && decide (dec16 w.length ≠ 0) }
   else w
 
 /-- `wave.takeSample` as the exact numerator over 120: `(buf>>shift)/15 = 8·(buf>>shift) / 120` -/
@@ -88,8 +96,7 @@ def sampleNum (w : Wave) : Nat :=
 
 /-- `WriteNR30` -/
 def writeNR30 (w : Wave) (v : Nat) : Wave :=
-  let w := { w with dacEnabled := decide (v / 128 % 2 > 0) }
-  if !w.dacEnabled then { w with enabled := false } else w
+  { w with dacEnabled := decide (v / 128 % 2 > 0), enabled := w.enabled && decide (v / 128 % 2 > 0) }
 
 /-- `WriteNR31`: `256 - uint16(value)` -/
 def writeNR31 (w : Wave) (v : Nat) : Wave := { w with length := sub16 256 v }
@@ -100,20 +107,24 @@ def writeNR32 (w : Wave) (v : Nat) : Wave := { w with outputLevel := v / 32 % 4 
 /-- `WriteNR33` -/
 def writeNR33 (w : Wave) (v : Nat) : Wave := { w with frequency := w.frequency / 256 * 256 + v }
 
+def setFreqHi (w : Wave) (v : Nat) : Wave := { w with frequency := w.frequency % 256 + (v % 8) * 256 }
+
+def extraLenClock (w : Wave) (fs : Nat) (le trig : Bool) : Wave :=
+  if !w.lengthEnable && le && decide (w.length > 0) && decide (fs % 2 = 1) then
+    { w with length := dec16 w.length, enabled := w.enabled && !(decide (dec16 w.length = 0) && !trig) }
+  else w
+
+def trigLenClock (w : Wave) (fs : Nat) (le : Bool) : Wave :=
+  if le && decide (w.length = 256) && decide (fs % 2 = 1) then { w with length := dec16 w.length } else w
+
+def trigPart (w : Wave) (fs : Nat) (le trig : Bool) : Wave :=
+  if trig then w.trigger.trigLenClock fs le else w
+
+def setLE (w : Wave) (le : Bool) : Wave := { w with lengthEnable := le }
+
 /-- `WriteNR34`; `fs` is `a.frameSeqTicks` -/
 def writeNR34 (w : Wave) (fs : Nat) (v : Nat) : Wave :=
-  let w := { w with frequency := w.frequency % 256 + (v % 8) * 256 }
-  let trig : Bool := decide (v / 128 % 2 > 0)
-  let le : Bool := decide (v / 64 % 2 > 0)
-  let w := if !w.lengthEnable && le && decide (w.length > 0) && decide (fs % 2 = 1) then
-      (let w : Wave := { w with length := dec16 w.length }
-       if w.length = 0 ∧ trig = false then { w with enabled := false } else w)
-    else w
-  let w := if trig then
-      (let w : Wave := w.trigger
-       if le && decide (w.length = 256) && decide (fs % 2 = 1) then { w with length := dec16 w.length } else w)
-    else w
-  { w with lengthEnable := le }
+  (((w.setFreqHi v).extraLenClock fs (leOf v) (trigOf v)).trigPart fs (leOf v) (trigOf v)).setLE (leOf v)
 
 /-- `WriteWaveRAM(addr, value)` with `i = addr - 0xff30` -/
 def writeRam (w : Wave) (i v : Nat) : Wave :=
